@@ -61,7 +61,7 @@ func init() {
 		Run:      func(sc any, tr *kit.Trace) *kit.Result { return runC17(sc.(*C17Scenario), tr) },
 		Shrink:   shrinkC17,
 		PerChunk: 20,
-		Quick:    640,
+		Quick:    3200,
 		Thorough: 40000,
 	})
 }
